@@ -250,6 +250,14 @@ func (fb *frameBuilder) direct(fn *ssa.Function) {
 			}
 		}
 	}
+	// ghost fields assigned by anchored ghost statements of this function
+	for _, a := range fb.S.Ats {
+		if a.Func == ng.key && a.Kind == "ghost" && a.LHS != nil && a.LHS.Op == "sel" {
+			if h, _, _ := ng.ghostHeap(a.LHS.Name); h != "" {
+				mods[h] = true
+			}
+		}
+	}
 	siteOrd := map[string]int{}
 	for _, b := range fn.Blocks {
 		for _, in := range b.Instrs {
